@@ -282,7 +282,7 @@ WLegal(s, e) ==
       [] e.op = "send_headers" -> TRUE
       [] e.op = "write" -> s.hdr # "none" /\ ~s.eof
       [] e.op = "write_eof" -> s.hdr # "none"
-      [] e.op = "set_eof" -> s.hdr # "none" /\ (s.compress => s.zin = 0)
+      [] e.op = "set_eof" -> s.hdr # "none" /\ (s.compress => (s.zin = 0 /\ s.zout = 0))   \* set_eof() does not flush a compressor
       [] e.op = "drain" -> TRUE
       [] OTHER -> FALSE
 
@@ -392,7 +392,9 @@ WireClause(s, w, checkData) ==
 HdrOnceFirst(s) == HdrClause(s, s.wire) = ""
 ChunkedDecodes(s) == s.chunked => WireClause(s, s.wire, TRUE) = ""
 LengthRespected(s) == (~s.chunked) => WireClause(s, s.wire, TRUE) = ""
-CompressComplete(s) == (s.compress /\ s.eof) => s.zout = s.zin + 2 /\ Len(s.fin) = s.zout
+\* a compressed stream is either untouched (set_eof without any data) or flushed completely
+CompressComplete(s) == (s.compress /\ s.eof) => \/ (s.zin = 0 /\ s.zout = 0)
+                                                \/ (s.zout = s.zin + 2 /\ Len(s.fin) = s.zout)
 EofFramed(s) == (s.eof /\ s.chunked) => (s.wire # <<>> /\ ChunkDecode(Drop(s.wire, Len(s.head))).last)
 
 (* ------------------------------------------------------------------------ *)
